@@ -100,7 +100,9 @@ Proof. exact answer_within_offer. Qed.
 Print Assumptions C12_answer_within_offer.
 
 (* brotli / snappy (only no_context_takeover is negotiated): the client reads the server's answer back exactly, and in
-   each direction a decompressor that is recreated per message meets a compressor that is recreated per message *)
+   each direction a decompressor that is recreated per message meets a compressor that is recreated per message.
+   (A statement about the two SETTINGS objects.  For brotli the codec no longer consults them in any observable way:
+   C12_stream_per_message - every message is its own stream in both modes, so the implication also holds trivially there.) *)
 Theorem C12_negotiation_sound_brotli_snappy : forall a ra,
   n_accept_ctor (na_offer a) (na_req_nct a) (na_nct a) = Ok a ->
   n_raccept_ctor (nra_response ra) (nra_nct ra) = Ok ra ->
@@ -171,45 +173,42 @@ Proof. exact parse_response_ok. Qed.
 Print Assumptions C12_response_parse_exact.
 
 (* ------------------------------------------------------------------------------------------------ *)
-(* Handle typestate.  Full-strength statement "for every extension, both context-takeover modes, every message
-   sequence, no library call lands on a missing or finished object" is FALSE of the faithful model: *)
-Theorem C12_typestate_refuted :
-  (* sending: brotli, context takeover (the default), two messages, the second non-empty (the finished encoder
-     tolerates b"" only): its compress hits the finished encoder *)
-  (forall CS DS c_new c_compress c_flush cw mem dw dnct m1 b1 v m2 b2,
-     exists first,
-       send_msgs CS DS c_new c_compress c_flush (Some (pmce_init CS DS (disc_of XBrotli) cw mem false dw dnct))
-                 [MWhole m1 b1 None false; MWhole (v :: m2) b2 None false]
-       = SendRaised CS DS (SE (ETypestate OnFinished)) [first]) /\
-  (* receiving: the decoder object has seen its stream end with the first message *)
-  (forall CS DS d_new d_feed cw mem cnct dw p1 v p2 ds1 o1,
-     d_feed (d_new dw) p1 = Some (ds1, o1) ->
-     snd (recv_frames CS DS d_new d_feed (rstate_init CS DS (Some (pmce_init CS DS (disc_of XBrotli) cw mem cnct dw false)))
-                      [(true, 4%N, 2%N, [p1]); (true, 4%N, 2%N, [v :: p2])])
-     = [Delivered (o1 ++ []) true; Escaped (ETypestate OnFinished)]).
-Proof. exact (conj brotli_second_send_fails brotli_second_recv_fails). Qed.
-Print Assumptions C12_typestate_refuted.
-
-(* The provable part (missing: brotli with context takeover on the side in question): for deflate, bzip2, snappy
-   in both modes and brotli with no_context_takeover, for every codec, every send sequence (sendMessage with any
-   fragment size and the streaming API) and EVERY incoming frame sequence (well-formed or not). *)
-Theorem C12_typestate_partial : forall CS DS c_new c_compress c_flush d_new d_feed x cw mem cnct dw dnct,
-  (x <> XBrotli \/ cnct = true ->
-   forall ms, ~ typestate_error_send CS DS (send_msgs CS DS c_new c_compress c_flush
-                                                        (Some (pmce_init CS DS (disc_of x) cw mem cnct dw dnct)) ms)) /\
-  (x <> XBrotli \/ dnct = true ->
-   forall fs, ~ typestate_error_recv (snd (recv_frames CS DS d_new d_feed
+(* Handle typestate, full strength: for EVERY extension (deflate, bzip2, brotli, snappy), both context-takeover modes on
+   either side, every codec, every send sequence (sendMessage with any fragment size, the streaming API, doNotCompress
+   mixed in) and EVERY incoming frame sequence (well-formed or not): no library call lands on a missing or finished
+   object.  (True of the code since fix 444bd7d4; before it the statement was refuted for brotli - see the Example
+   C12_brotli_before_fix below.) *)
+Theorem C12_typestate : forall CS DS c_new c_compress c_flush d_new d_feed x cw mem cnct dw dnct,
+  (forall ms, ~ typestate_error_send CS DS (send_msgs CS DS c_new c_compress c_flush
+                                                      (Some (pmce_init CS DS (disc_of x) cw mem cnct dw dnct)) ms)) /\
+  (forall fs, ~ typestate_error_recv (snd (recv_frames CS DS d_new d_feed
                                              (rstate_init CS DS (Some (pmce_init CS DS (disc_of x) cw mem cnct dw dnct))) fs))).
-Proof. exact typestate_partial. Qed.
-Print Assumptions C12_typestate_partial.
+Proof. exact typestate_all. Qed.
+Print Assumptions C12_typestate.
+
+(* bzip2 and brotli end their stream with every message and drop both library objects: the next message gets a fresh
+   compressor / decompressor whatever no_context_takeover says.  For brotli this means that "context takeover" does not
+   exist at the codec level any more: the negotiated flags (C12_negotiation_sound_brotli_snappy) travel in the header and
+   sit in the settings object, the codec runs one stream per message in both modes. *)
+Theorem C12_stream_per_message : forall CS DS c_flush d_feed x (p : pmce CS DS),
+  x = XBzip2 \/ x = XBrotli -> p_disc p = disc_of x ->
+  (forall g cs, p_comp p = HLive g cs ->
+     exists p' out, end_compress CS DS c_flush p = Ok (p', out) /\ p_comp p' = HNone) /\
+  (forall g ds, p_decomp p = HLive g ds ->
+     exists p', end_decompress CS DS d_feed p = Ok p' /\ p_decomp p' = HNone).
+Proof. exact stream_per_message_drops. Qed.
+Print Assumptions C12_stream_per_message.
 
 (* ------------------------------------------------------------------------------------------------ *)
-(* Losslessness under the codec stream law: any extension, any message sequence (sendMessage with any fragment size,
-   streaming API, doNotCompress mixed in), any cutting of every frame payload into chunks: delivered = sent, in order. *)
+(* Losslessness under the codec stream law: any extension, any message sequence (sendMessage with any fragment size -
+   trailing empty frames included -, streaming API, doNotCompress mixed in), any cutting of every frame payload into
+   chunks (empty chunks included): delivered = sent, in order.  The law asks of the library: the compressor's output for
+   a message decodes to the message in any segmentation into NON-EMPTY pieces, and - only where the wrapper passes empty
+   input on (not bzip2) - that feeding nothing yields nothing.  bz2 (end-of-stream strict) meets this. *)
 Theorem C12_lossless : forall CS DS c_new c_compress c_flush d_new d_feed x compat R,
   codec_law CS DS c_new c_compress c_flush d_new d_feed (disc_of x) compat R ->
   forall cw mem cnct dw' dnct' cw' mem' cnct' dw dnct,
-  compat cw dw = true -> (dnct = true -> cnct = true) -> typestate_safe (disc_of x) cnct dnct = true ->
+  compat cw dw = true -> (dnct = true -> cnct = true) ->
   forall ms, Forall msg_wf ms ->
   exists ps' fss,
     send_msgs CS DS c_new c_compress c_flush (Some (pmce_init CS DS (disc_of x) cw mem cnct dw' dnct')) ms
@@ -244,11 +243,12 @@ Theorem C12_lossless_negotiated : forall CS DS c_new c_compress c_flush d_new d_
 Proof. exact lossless_negotiated_deflate. Qed.
 Print Assumptions C12_lossless_negotiated.
 
-(* The stream law is a genuine assumption: a library whose decompressor refuses calls after end-of-stream (clause
-   [law_feed_nil] fails - bz2.BZ2Decompressor does this, brotli and zlib do not) loses a message whenever sendMessage's
-   fragmentation loop emits its trailing EMPTY frame, i.e. whenever the fragment size divides the compressed length. *)
+(* What the bzip2 fix (36836fb7) repaired, and why clause [law_feed_nil] is needed where there is no guard: a library
+   whose decompressor refuses calls after end-of-stream (bz2.BZ2Decompressor; brotli and zlib do not), wrapped WITHOUT the
+   empty-input guard (the former bzip2 discipline), loses a message whenever sendMessage's fragmentation loop emits its
+   trailing EMPTY frame, i.e. whenever the fragment size divides the compressed length. *)
 Theorem C12_lossless_refuted_eos_strict :
-  let p := pmce_init unit bool disc_bzip2 9 0 false 0 false in
+  let p := pmce_init unit bool disc_bzip2_before_fix 9 0 false 0 false in
   let ms := [MWhole [1; 2]%N true (Some 1) false] in
   Forall msg_wf ms /\
   match send_msgs unit bool id_c_new id_c_compress eos_c_flush (Some p) ms with
@@ -384,7 +384,7 @@ Proof. vm_compute. split; reflexivity. Qed.
 
 (* the end-of-stream strict codec is fine as long as no empty frame follows the end of the stream *)
 Example C12_eos_strict_without_empty_frame :
-  let p := pmce_init unit bool disc_bzip2 9 0 false 0 false in
+  let p := pmce_init unit bool disc_bzip2_before_fix 9 0 false 0 false in
   match send_msgs unit bool id_c_new id_c_compress eos_c_flush (Some p) [MWhole [1; 2]%N true (Some 2) false] with
   | Sent _ _ _ fss =>
       snd (recv_frames unit bool eos_d_new eos_d_feed (rstate_init unit bool (Some p))
@@ -393,6 +393,36 @@ Example C12_eos_strict_without_empty_frame :
   | SendRaised _ _ _ _ => False
   end.
 Proof. exact eos_strict_ok_without_empty_frame. Qed.
+
+(* ... and with the guard of the repaired bzip2 wrapper the message of C12_lossless_refuted_eos_strict, trailing empty
+   frame included, is delivered by the same end-of-stream strict codec *)
+Example C12_eos_strict_guarded_delivers :
+  let p := pmce_init unit bool disc_bzip2 9 0 false 0 false in
+  match send_msgs unit bool id_c_new id_c_compress eos_c_flush (Some p) [MWhole [1; 2]%N true (Some 1) false] with
+  | Sent _ _ _ fss =>
+      map (map (fun f => (f_fin f, f_rsv f, f_payload f))) fss
+        = [[(false, 4%N, [1%N]); (false, 0%N, [2%N]); (false, 0%N, [255%N]); (true, 0%N, [])]] /\
+      snd (recv_frames unit bool eos_d_new eos_d_feed (rstate_init unit bool (Some p))
+             (map (fun f => (f_fin f, f_rsv f, f_opcode f, [f_payload f])) (List.concat fss)))
+      = [Delivered [1; 2]%N true]
+  | SendRaised _ _ _ _ => False
+  end.
+Proof. exact eos_strict_guarded_delivers. Qed.
+
+(* what the brotli fix (444bd7d4) repaired: with the former discipline (finish() and keep the object) and context takeover
+   the second non-empty message hit the finished encoder, and the kept decoder the second message *)
+Example C12_brotli_before_fix :
+  (forall CS DS c_new c_compress c_flush cw mem dw dnct m1 b1 v m2 b2,
+     exists first,
+       send_msgs CS DS c_new c_compress c_flush (Some (pmce_init CS DS disc_brotli_before_fix cw mem false dw dnct))
+                 [MWhole m1 b1 None false; MWhole (v :: m2) b2 None false]
+       = SendRaised CS DS (SE (ETypestate OnFinished)) [first]) /\
+  (forall CS DS d_new d_feed cw mem cnct dw p1 v p2 ds1 o1,
+     d_feed (d_new dw) p1 = Some (ds1, o1) ->
+     snd (recv_frames CS DS d_new d_feed (rstate_init CS DS (Some (pmce_init CS DS disc_brotli_before_fix cw mem cnct dw false)))
+                      [(true, 4%N, 2%N, [p1]); (true, 4%N, 2%N, [v :: p2])])
+     = [Delivered (o1 ++ []) true; Escaped (ETypestate OnFinished)]).
+Proof. exact (conj brotli_second_send_fails brotli_second_recv_fails). Qed.
 
 (* RSV: a compressed ping and a continuation frame with RSV1 are rejected, the frame stream stops there *)
 Example C12_rsv_witness :
